@@ -1069,16 +1069,25 @@ def segment_stream(ctx, R, tier):
     variant = next((a for a in (0, 1) if [x for x in models[a] if not x.endswith("/metadata") or not x.startswith("close")] == real), None)
     R.count("segment-trace-steps", len(real))
     if variant is None:
-        d = [l for l in difflib.unified_diff(models[0], real, lineterm="", n=0) if not l.startswith(("---", "+++"))]
+        ds = [[l for l in difflib.unified_diff(models[a], real, lineterm="", n=0) if not l.startswith(("---", "+++"))]
+              for a in (0, 1)]
+        d = min(ds, key=len)
         R.oblige("segment trace tie: create() = model step list", False, " ".join(d)[:600])
-        R.violation("trace", "segmentController.create: " + " ".join(d)[:600], {"real": real, "model": models[0]},
-                    no_input=True)
-        return
-    R.oblige("segment trace tie: create() = model step list (%s, %d segments)" % (
-        "metadata through WriteAtomic" if variant else "as written: metadata not fsynced", k), True)
-    steps = models[variant]
-    lines = ["segstates %d %d %d" % (variant, k, c) for c in range(len(steps) + 1)]
-    outs = ctx.lean_lines(lines)
+        tie_msg = "segmentController.create: " + " ".join(d)[:600]
+        # explore the crash outcomes of the RECORDED step list (model file-system semantics on the real call order)
+        lines = ["segstatesx %d | %s" % (c, "; ".join(real)) for c in range(len(real) + 1)]
+        outs = ctx.lean_lines(lines)
+        if any(o == "bad-op" for o in outs):
+            R.violation("trace", tie_msg, {"real": real, "model": models[0]}, no_input=True)
+            return
+        R.count("segment-trace-explored-on-recorded-trace")
+    else:
+        tie_msg = None
+        R.oblige("segment trace tie: create() = model step list (%s, %d segments)" % (
+            "metadata through WriteAtomic" if variant else "as written: metadata not fsynced", k), True)
+        steps = models[variant]
+        lines = ["segstates %d %d %d" % (variant, k, c) for c in range(len(steps) + 1)]
+        outs = ctx.lean_lines(lines)
     seen = {}
     for c, o in enumerate(outs):
         for item in o.split(" ## "):
@@ -1126,8 +1135,12 @@ def segment_stream(ctx, R, tier):
             mnorm = ("ERR",)
         else:
             ids_s, t_s = rec_s[3:].split(" |", 1)
-            mnorm = ("OK", tuple(int(x) for x in ids_s.split(",") if x),
-                     tuple(sorted(x.split("=")[0] for x in t_s.split(" ") if x)))
+            ents = [x.split("=")[0] for x in t_s.split(" ") if x]
+            dirs = set(x for x in ents if x.endswith("/"))
+            # what a directory walk sees: entries all of whose ancestors are directories
+            reach = [x for x in ents if all("/".join(x.rstrip("/").split("/")[:n]) + "/" in dirs
+                                            for n in range(1, x.rstrip("/").count("/") + 1))]
+            mnorm = ("OK", tuple(int(x) for x in ids_s.split(",") if x), tuple(sorted(reach)))
         cont = None
         if g.startswith("OK "):
             body = g[3:]
@@ -1182,7 +1195,7 @@ def segment_stream(ctx, R, tier):
                   "model_tree": tree_s,
                   "tree": files, "impl_output": g, "model_output": rec_s,
                   "how": "materialise `tree` below a directory <d>, then `echo segrec <d> | drv_c04` (real OpenTSDB)"}
-            if KNOWN_SEGMENT in {x["id"] for x in vlib.load_known(PROP)} and not variant and mode != "D":
+            if KNOWN_SEGMENT in {x["id"] for x in vlib.load_known(PROP)} and variant == 0 and mode != "D":
                 R.known_hits.setdefault(KNOWN_SEGMENT, v + " | crash tree: " + tree_s)
                 R.count("known:" + KNOWN_SEGMENT)
             else:
@@ -1198,6 +1211,8 @@ def segment_stream(ctx, R, tier):
     if dis and not bad:
         R.violation("correspondence", "segment level: model and implementation disagree: tree=%s impl=%s model=%s" % dis[0],
                     {"stream": "segment", "model_tree": dis[0][0]}, no_input=True)
+    if tie_msg is not None and not bad:
+        R.violation("trace", tie_msg, {"real": real, "model": models[0]}, no_input=True)
 
 
 # ----------------------------------------------------------------------------------------------------------
@@ -1207,6 +1222,9 @@ def segment_stream(ctx, R, tier):
 
 TRACE_HISTORIES = [["B1", "F"], ["B1", "F", "B2", "F"], ["B1", "B2", "F", "B3", "F"]]
 TRACE_HISTORIES_THOROUGH = [["B1", "F", "B2", "B3", "F", "B4", "F"]]
+# M = merge every file part of the snapshot (trace table only: core parts and the secondary index)
+TRACE_MERGE_HISTORIES = [["B1", "F", "B2", "F", "M"], ["B1", "F", "B2", "F", "M", "B3", "F"]]
+TRACE_MERGE_HISTORIES_THOROUGH = [["B1", "F", "B2", "F", "B3", "F", "M", "B4", "F", "M"]]
 
 
 def parse_trace_dump(s):
@@ -1218,7 +1236,8 @@ def parse_trace_dump(s):
     parts = []
     for p_ in filter(None, d.get("parts", "").split(";")):
         pid, kind, b = p_.split(":")
-        parts.append((int(pid, 16), kind, int(b.rstrip("!")), b.endswith("!")))
+        lo, hi = b.rstrip("!").split("-")
+        parts.append((int(pid, 16), kind, tuple(range(int(lo), int(hi) + 1)), b.endswith("!")))
     return {"epoch": d.get("epoch"), "parts": parts, "sidx": d.get("sidx", "-"),
             "sidxdirs": sorted(int(x, 16) for x in d.get("sidxdirs", "").split(",") if x)}
 
@@ -1245,8 +1264,8 @@ def trace_oracle_(g, acked, cover, engine):
         if kind != "f":
             return "trace table: recovered snapshot contains a memory part"
         if bad:
-            return "trace table: part %x: metadata does not describe exactly one batch" % pid
-        got.append(b)
+            return "trace table: part %x: the row count of its metadata does not fit its batches" % pid
+        got += list(b)
     if len(set(got)) != len(got):
         return "trace table: a batch is served by two parts: %s" % got
     if set(got) != set(acked[:len(got)]):
@@ -1297,7 +1316,7 @@ def trace_oracle_(g, acked, cover, engine):
         if cont.startswith("PANIC"):
             return "trace table: the recovered table is not usable: " + cont[:200]
         c = parse_trace_dump(cont)
-        cb = sorted(b for pid, kind, b, bad in c["parts"])
+        cb = sorted(x for pid, kind, b, bad in c["parts"] for x in b)
         ccore = sorted(pid for pid, kind, b, bad in c["parts"])
         if cb != sorted(got + [99]) or (engine == "trace" and c["sidxdirs"] != ccore):
             return "trace table: after one more batch, a flush and a restart it serves %s (index parts %s), expected %s" % (
@@ -1315,6 +1334,8 @@ def stream_table_stream(ctx, R, tier):
 
 def engine_stream(ctx, R, tier, engine):
     hists = TRACE_HISTORIES + (TRACE_HISTORIES_THOROUGH if tier != "quick" else [])
+    if engine == "trace":
+        hists = hists + TRACE_MERGE_HISTORIES + (TRACE_MERGE_HISTORIES_THOROUGH if tier != "quick" else [])
     nstates = 0
     for hi, ops in enumerate(hists):
         root = os.path.join(ctx.scratch, "%s%d" % (engine, hi))
@@ -1334,7 +1355,7 @@ def engine_stream(ctx, R, tier, engine):
         for l in out[1:]:
             w = l.split(" ", 2)
             d = parse_trace_dump(w[2]) if len(w) > 2 else {"parts": []}
-            cov.append(sorted(b for pid, kind, b, bad in d["parts"] if kind == "f"))
+            cov.append(sorted(x for pid, kind, b, bad in d["parts"] if kind == "f" for x in b))
         events = []
         for si, (mk, es) in enumerate([x for x in split_segments(ev) if x[0] != "?"]):
             for e in es:
